@@ -1,1 +1,256 @@
-// harnesses for module body (included under cfg(kani))
+// C07 (chunk framing of arbitrary write sequences) and C10 (body replay kernel).
+
+include!("hmacro.rs");
+
+mod verif_bodyw {
+    use super::*;
+    use crate::verif::{hex_val, Sink};
+
+    /// Reference decoder for a chunked body as the request side must produce it (hex in either
+    /// case, leading zeros allowed, CR LF line ends, no trailers).  Written as a single-pass state
+    /// machine over a constant-bound loop: the bytes produced by `write!("{:x}")` come out of a
+    /// 128-byte formatting buffer and are not constant for the symbolic executor, so any loop whose
+    /// trip count depended on them would be unwound to the bound at every nesting level.
+    /// Returns (payload length, zero-size chunks seen, well-formed and fully consumed).
+    pub fn decode_chunked(wire: &[u8; 32], len: usize, out: &mut [u8; 32]) -> (usize, usize, bool) {
+        // states: 0 size digits (none yet), 1 size digits (some), 2 LF after size, 3 data, 4 CR after
+        // data, 5 LF after data, 6 CR of last line, 7 LF of last line, 8 done, 9 error
+        let mut st = 0u8;
+        let mut size = 0usize;
+        let mut remaining = 0usize;
+        let mut n = 0usize;
+        let mut zeros = 0usize;
+        let mut i = 0;
+        while i < 32 {
+            if i < len {
+                let b = wire[i];
+                st = match st {
+                    0 | 1 => match hex_val(b) {
+                        Some(d) if size < 4096 => {
+                            size = size * 16 + d;
+                            1
+                        }
+                        Some(_) => 9,
+                        None => {
+                            if st == 1 && b == b'\r' {
+                                2
+                            } else {
+                                9
+                            }
+                        }
+                    },
+                    2 => {
+                        if b != b'\n' {
+                            9
+                        } else if size == 0 {
+                            zeros += 1;
+                            6
+                        } else {
+                            remaining = size;
+                            3
+                        }
+                    }
+                    3 => {
+                        if n < 32 {
+                            out[n] = b;
+                        }
+                        n += 1;
+                        remaining -= 1;
+                        if remaining == 0 {
+                            4
+                        } else {
+                            3
+                        }
+                    }
+                    4 => {
+                        if b == b'\r' {
+                            5
+                        } else {
+                            9
+                        }
+                    }
+                    5 => {
+                        if b == b'\n' {
+                            size = 0;
+                            0
+                        } else {
+                            9
+                        }
+                    }
+                    6 => {
+                        if b == b'\r' {
+                            7
+                        } else {
+                            9
+                        }
+                    }
+                    7 => {
+                        if b == b'\n' {
+                            8
+                        } else {
+                            9
+                        }
+                    }
+                    // anything after the terminator: a second frame / stray bytes
+                    8 => 9,
+                    _ => 9,
+                };
+            }
+            i += 1;
+        }
+        (n, zeros, st == 8)
+    }
+
+    /// A user-defined streaming body issues the write calls `lens` (symbolic bytes) on the chunked
+    /// writer, directly or through a BufWriter of capacity 2 (as the Json body does); then close().
+    fn write_sequence(lens: &[usize], via_bufwriter: bool) {
+        // a pre-sized Vec as sink: std's Vec<u8> Write impl has no retry loop and copies with a
+        // plain memcpy; the fixed-array sink made symbolic execution blow up on lengths that come
+        // out of core::fmt
+        let mut sink: Vec<u8> = Vec::with_capacity(32);
+        let mut all = [0u8; 32];
+        let mut total = 0;
+        {
+            let mut w = ChunkedWriter(&mut sink);
+            if via_bufwriter {
+                let mut bw = std::io::BufWriter::with_capacity(2, &mut w);
+                let mut k = 0;
+                while k < lens.len() {
+                    let mut data = [0u8; 20];
+                    let mut j = 0;
+                    while j < lens[k] {
+                        data[j] = kani::any();
+                        all[total] = data[j];
+                        total += 1;
+                        j += 1;
+                    }
+                    let r = bw.write_all(&data[..lens[k]]);
+                    assert!(r.is_ok(), "C07: write failed");
+                    k += 1;
+                }
+                let r = bw.flush();
+                assert!(r.is_ok());
+                std::mem::forget(bw);
+            } else {
+                let mut k = 0;
+                while k < lens.len() {
+                    let mut data = [0u8; 20];
+                    let mut j = 0;
+                    while j < lens[k] {
+                        data[j] = kani::any();
+                        all[total] = data[j];
+                        total += 1;
+                        j += 1;
+                    }
+                    let r = w.write(&data[..lens[k]]);
+                    match r {
+                        Ok(m) => assert!(m == lens[k], "C07: chunked writer accepted a different number of bytes"),
+                        Err(_) => assert!(false, "C07: write failed"),
+                    }
+                    k += 1;
+                }
+            }
+            let r = w.close();
+            assert!(r.is_ok());
+        }
+        let mut out = [0u8; 32];
+        let mut wire = [0u8; 32];
+        let wlen = sink.len();
+        assert!(wlen <= 32, "harness: sink too small");
+        let mut c = 0;
+        while c < 32 {
+            if c < wlen {
+                wire[c] = sink[c];
+            }
+            c += 1;
+        }
+        let (n, zeros, ok) = decode_chunked(&wire, wlen, &mut out);
+        assert!(zeros <= 1 || !ok, "C07: more than one zero-length chunk in a well-formed body");
+        assert!(ok, "C07: request body is not exactly one well-formed chunked body (a zero-length chunk before the end terminates it early)");
+        assert!(n == total, "C07: chunked body carries a different number of octets than were written");
+        let mut i = 0;
+        while i < total {
+            assert!(out[i] == all[i], "C07: chunked body octets differ from what was written");
+            i += 1;
+        }
+        kani::cover!(true, "must: sequence written and decoded");
+        std::mem::forget(sink);
+    }
+
+    verif_harness!(c07_q_chunkw_1_2, 70, { write_sequence(&[1, 2], false) });
+    verif_harness!(c07_q_chunkw_2_0_1, 70, { write_sequence(&[2, 0, 1], false) });
+    verif_harness!(c07_q_chunkw_17, 70, { write_sequence(&[17], false) });
+    verif_harness!(c07_q_chunkw_none, 70, { write_sequence(&[], false) });
+    verif_harness!(c07_q_chunkw_0, 70, { write_sequence(&[0], false) });
+    verif_harness!(c07_q_chunkw_buf_3_1, 70, { write_sequence(&[3, 1], true) });
+    verif_harness!(c07_q_chunkw_buf_0_1_0, 70, { write_sequence(&[0, 1, 0], true) });
+    verif_harness!(c07_t_chunkw_2_0_0_2, 70, { write_sequence(&[2, 0, 0, 2], false) });
+    verif_harness!(c07_t_chunkw_16, 70, { write_sequence(&[16], false) });
+    verif_harness!(c07_t_chunkw_buf_5_2, 70, { write_sequence(&[5, 2], true) });
+    verif_harness!(c07_t_chunkw_1_1_1_1, 70, { write_sequence(&[1, 1, 1, 1], false) });
+    verif_harness!(c07_qtwin_chunkw, 70, {
+        write_sequence(&[1, 2], false);
+        assert!(false, "twin: must be reported as FAILURE");
+    });
+
+    // ---------------------------------------------------------------------------------- C10 (i)
+    /// kind() + write() twice on the same body object (what send() does on a 307/308 hop) yields the
+    /// same octets and the same kind both times.
+    fn replay_text<const N: usize>() {
+        let data: [u8; N] = kani::any();
+        let mut i = 0;
+        while i < N {
+            kani::assume(data[i] < 0x80);
+            i += 1;
+        }
+        let s = unsafe { std::str::from_utf8_unchecked(&data) };
+        let mut b = Text(s);
+        let mut s1: Sink<16> = Sink::new();
+        let mut s2: Sink<16> = Sink::new();
+        let k1 = b.kind();
+        let r1 = b.write(&mut s1);
+        let k2 = b.kind();
+        let r2 = b.write(&mut s2);
+        assert!(r1.is_ok() && r2.is_ok());
+        assert!(matches!(k1, Ok(BodyKind::KnownLength(n)) if n == N as u64), "C10/C07: Text body announces a wrong length");
+        assert!(matches!(k2, Ok(BodyKind::KnownLength(n)) if n == N as u64), "C10: body kind changes on replay");
+        assert!(s1.len == N && s2.len == N, "C10/C07: body octets written differ from the announced length");
+        let mut j = 0;
+        while j < N {
+            assert!(s1.out[j] == data[j] && s2.out[j] == data[j], "C10: body bytes differ between hops");
+            j += 1;
+        }
+        kani::cover!(true, "must: replayed");
+    }
+    fn replay_bytes<const N: usize>() {
+        let data: [u8; N] = kani::any();
+        let mut b = Bytes(data);
+        let mut s1: Sink<16> = Sink::new();
+        let mut s2: Sink<16> = Sink::new();
+        let k1 = b.kind();
+        let r1 = b.write(&mut s1);
+        let k2 = b.kind();
+        let r2 = b.write(&mut s2);
+        assert!(r1.is_ok() && r2.is_ok());
+        assert!(matches!(k1, Ok(BodyKind::KnownLength(n)) if n == N as u64), "C10/C07: Bytes body announces a wrong length");
+        assert!(matches!(k2, Ok(BodyKind::KnownLength(n)) if n == N as u64), "C10: body kind changes on replay");
+        assert!(s1.len == N && s2.len == N, "C10/C07: body octets written differ from the announced length");
+        let mut j = 0;
+        while j < N {
+            assert!(s1.out[j] == data[j] && s2.out[j] == data[j], "C10: body bytes differ between hops");
+            j += 1;
+        }
+        kani::cover!(true, "must: replayed");
+    }
+    verif_harness!(c10_q_replay_text_n0, 20, { replay_text::<0>() });
+    verif_harness!(c10_q_replay_text_n3, 20, { replay_text::<3>() });
+    verif_harness!(c10_q_replay_bytes_n4, 20, { replay_bytes::<4>() });
+    verif_harness!(c10_t_replay_bytes_n9, 20, { replay_bytes::<9>() });
+    verif_harness!(c10_q_replay_empty, 20, {
+        let mut b = Empty;
+        let mut s1: Sink<4> = Sink::new();
+        assert!(matches!(b.kind(), Ok(BodyKind::Empty)) && b.write(&mut s1).is_ok() && matches!(b.kind(), Ok(BodyKind::Empty)));
+        assert!(b.write(&mut s1).is_ok() && s1.len == 0, "C10: empty body wrote octets");
+        kani::cover!(true, "must: replayed");
+    });
+}
